@@ -801,3 +801,32 @@ fires('s14-file-close-keeps-stream', ['C11'], [(IO, "    def close(self):\n     
 fires('s15-recorder-hop-from-block', ['C19', 'C10'], [(UTIL, "            hop_dur=hop_dur,\n            record=True,", "            hop_dur=block_dur,\n            record=True,")])
 fires('s16-stdin-read-returns-none-for-data', ['C11'], [(IO, "        data = self._stream.read(bytes_to_read)\n        if data:\n            return data\n        return None", "        data = self._stream.read(bytes_to_read)\n        if not data:\n            return data\n        return None")])
 fires('s17-selector-normalises-with-width', ['C07'], [(UTIL, "            selected += channels", "            selected += sample_width")])
+
+# ------------------------------------------------------------------ round 7 seeds: own minimal forms and twins
+fires('u01-ctor-message-template-wants-two-arguments', ['C02'], [(CORE, """                "'init_min' must be < 'max_length' (value={0})".format(
+                    max_continuous_silence
+                )
+""", """                "'init_min' must be < 'max_length' (value={0}, max_length={1})".format(
+                    init_min
+                )
+""")], 'str.format raises IndexError before the ValueError exists')
+silent('u02-twin-ctor-message-template-two-arguments-given', ['C02'], [(CORE, """                "'init_min' must be < 'max_length' (value={0})".format(
+                    max_continuous_silence
+                )
+""", """                "'init_min' must be < 'max_length' (value={0}, max_length={1})".format(
+                    init_min, max_length
+                )
+""")])
+fires('u03-buffer-extended-with-the-frame', ['C01'], [(CORE, """                self._init_count += 1
+                self._data.append(frame)
+""", """                self._init_count += 1
+                self._data.extend(frame)
+""")], 'the elements of the frame, not the frame')
+silent('u04-twin-buffer-extended-with-one-element-list', ['C01'], [(CORE, """                self._init_count += 1
+                self._data.append(frame)
+""", """                self._init_count += 1
+                self._data.extend([frame])
+""")])
+fires('u05-command-text-formatted-again', ['C12'], [(WORKERS, """                message = self._debug_format.format(id=_id, command=command)
+""", """                message = (self._debug_format + command).format(id=_id, command=command)
+""")], 'braces in the expanded command kill the observer')
